@@ -370,7 +370,8 @@ fn case_append_after_stop(out: &mut CaseOut, seed: u64, idx: usize) {
         let owned: Vec<usize> = (0..w.write_ends.len()).filter(|&i| w.write_owner[i] == big_index).collect();
         for &wi in &owned[..owned.len().saturating_sub(1)] {
             let stop_at = w.write_ends[wi];
-            let tail1_len = rng.usize_below(200);
+            // the first record appended after the stop is small, empty or itself fragmented
+            let tail1_len = [rng.usize_below(200), 0, 33_000, 70_000][rng.usize_below(4)];
             let tail2_len = [0usize, 10, 33_000][rng.usize_below(3)];
             let tail = vec![record_bytes(&mut rng, tail1_len, 0xD4), record_bytes(&mut rng, tail2_len, 0xE5)];
             let stopped = cut_image(&w.image, &path, stop_at);
